@@ -5,7 +5,7 @@ import json
 import random
 
 from .. import gen, sem
-from ..snapshot import CLASS_NAMES, DerivationWrong, build, build_case, pg_from_json, pg_to_json, snap
+from ..snapshot import CLASS_NAMES, DerivationWrong, build, build_case, case_graph_for_sample, case_pg, pg_from_json, pg_to_json, snap
 
 LEVEL = "exploration"
 RULE = (
@@ -23,7 +23,7 @@ ANCHORS = [
     "stereomolgraph.experimental:JSONHandler._stereo_from_payload",
 ]
 REQUIRED_ANCHORS = ANCHORS
-REQUIRED = ["roundtrips", "has_fleeting_bond", "has_placeholder", "has_none_parity", "has_change", "empty_graph"] + [f"desc:{c}" for c in sem.CLASSES]
+REQUIRED = ["roundtrips", "has_fleeting_bond", "has_placeholder", "has_none_parity", "has_change", "empty_graph", "scale_cases"] + [f"desc:{c}" for c in sem.CLASSES]
 
 
 def _big_ids(rng, pg):
@@ -49,12 +49,17 @@ def gen_cases(ctx):
             pg = gen.random_pg(rng, cls, n_range=(1, 12) if ctx.tier == "quick" else (1, 20), alphabet=rng.choice([gen.SMALL, gen.WIDE, tuple(range(1, 119))]), p_none=rng.choice([0, 0.3]), p_stereo=0.8, p_change=0.5, p_role=0.5, one_sided_bond_desc=0.3, max_deg=rng.choice([3, 4, 5, 6, 6]))
             pg = _big_ids(rng, pg)
         yield {"cls": cls, "pg": pg_to_json(pg), "bseed": rng.randrange(1 << 30)}
+    for nsz in gen.SCALE_SIZES[ctx.tier]:
+        for cls in CLASS_NAMES:
+            yield {"cls": cls, "scale": nsz, "gseed": rng.randrange(1 << 30), "bseed": rng.randrange(1 << 30)}
 
 
 def check_case(ctx, case):
     from stereomolgraph.experimental import JSONHandler
 
-    pg = pg_from_json(case["pg"])
+    pg = case_pg(case)
+    if "scale" in case:
+        ctx.count("scale_cases")
     cls = case["cls"]
     try:
         g, via = build_case(pg, case["bseed"])
@@ -113,4 +118,4 @@ def check_case(ctx, case):
                     ctx.violate(f"C15/not-equal-after-roundtrip/{cls}/{fkey}", "views identical but == / hash disagree", case)
         except Exception as e:  # noqa: BLE001
             ctx.violate(f"C15/eq-raises:{type(e).__name__}/{cls}/{fkey}", f"== / hash of the deserialised graph raised {e!r}", case)
-    ctx.sample({"class": cls, "graph": case["pg"], "json": s[:400]})
+    ctx.sample({"class": cls, "graph": case_graph_for_sample(case), "json": s[:400]})
